@@ -36,6 +36,9 @@ type Check struct {
 	Watchdog time.Duration
 	// Deadline is the internal per-tier deadline (quick, thorough).
 	DeadlineQuick, DeadlineThorough time.Duration
+	// Resumable: every unit of work goes through Worker.Case/RunCase, so a shard restarted after a process
+	// death can skip the cases a checkpoint already covers.
+	Resumable bool
 	// Serial forces a single worker (checks that drive external processes shard themselves).
 	Serial bool
 	// Extra lets a check add keys to coverage.
@@ -61,6 +64,7 @@ func Main() {
 	skipf := fs.String("skip", "", "worker skip file (internal)")
 	replay := fs.String("replay", "", "replay a violation file")
 	deadline := fs.Int64("deadline", 0, "unix seconds of internal deadline (internal)")
+	resume := fs.Int64("resume", 0, "skip the first N owned cases (internal)")
 	if len(os.Args) < 2 {
 		fmt.Fprintln(os.Stderr, "usage: mc <check-id> [-tier quick|thorough] [-replay file]")
 		os.Exit(2)
@@ -80,7 +84,7 @@ func Main() {
 	case *replay != "":
 		os.Exit(doReplay(c, *replay))
 	case *shard >= 0:
-		runWorker(c, *tier, *shard, *nshards, seed, *out, *journal, *skipf, *deadline)
+		runWorker(c, *tier, *shard, *nshards, seed, *out, *journal, *skipf, *deadline, *resume)
 	default:
 		os.Exit(supervise(c, *tier, seed))
 	}
@@ -102,7 +106,7 @@ func envOr(k, d string) string {
 	return d
 }
 
-func runWorker(c *Check, tier string, shard, n int, seed int64, out, journal, skipf string, deadline int64) {
+func runWorker(c *Check, tier string, shard, n int, seed int64, out, journal, skipf string, deadline int64, resume int64) {
 	fence()
 	if os.Getenv("VERIF_GOMAXPROCS") == "" {
 		runtime.GOMAXPROCS(2)
@@ -118,6 +122,9 @@ func runWorker(c *Check, tier string, shard, n int, seed int64, out, journal, sk
 		dl = time.Unix(deadline, 0)
 	}
 	w := newWorker(c.ID, tier, shard, n, seed, journal, skip, dl)
+	if c.Resumable {
+		w.resume, w.ckptPath, w.lastCkpt = resume, out+".ckpt", time.Now()
+	}
 	if pf := os.Getenv("VERIF_PROFILE"); pf != "" {
 		f, _ := os.Create(pf)
 		pprof.StartCPUProfile(f) //nolint:errcheck
@@ -135,6 +142,8 @@ func runWorker(c *Check, tier string, shard, n int, seed int64, out, journal, sk
 var evyFrameRe = regexp.MustCompile(`evylang\.dev/evy/(?:learn/)?pkg/(\S+?)\((?:0x[0-9a-f]+|\.\.\.|\)|\{)`)
 
 type shardState struct {
+	partials []*Result // checkpoints of earlier incarnations of the shard
+	resume   int64
 	res      *Result
 	skip     map[string]string
 	restarts int
@@ -192,8 +201,9 @@ func supervise(c *Check, tier string, seed int64) int {
 				os.Remove(jr)
 				b, _ := json.Marshal(st.skip)
 				os.WriteFile(sk, b, 0o644) //nolint:errcheck
+				os.Remove(out + ".ckpt")
 				cmd := exec.Command(exe, c.ID, "-tier", tier, "-shard", strconv.Itoa(i), "-nshards", strconv.Itoa(n),
-					"-out", out, "-journal", jr, "-skip", sk, "-deadline", strconv.FormatInt(deadline, 10))
+					"-out", out, "-journal", jr, "-skip", sk, "-deadline", strconv.FormatInt(deadline, 10), "-resume", strconv.FormatInt(st.resume, 10))
 				cmd.Env = append(os.Environ(), "VERIF_SEED="+strconv.FormatInt(seed, 10))
 				logf, _ := os.Create(filepath.Join(tmp, fmt.Sprintf("log-%d-%d.txt", i, st.restarts)))
 				cmd.Stdout, cmd.Stderr = logf, logf
@@ -203,9 +213,13 @@ func supervise(c *Check, tier string, seed int64) int {
 				}
 				done := make(chan error, 1)
 				go func() { done <- cmd.Wait() }()
+				// hang detector: the journal has not moved while the worker consumed more than wd of CPU time
+				// (a starved worker on a loaded machine accumulates wall time, not CPU time), or - for a worker that
+				// is blocked without using CPU - for 20 x wd of wall time
 				hung := false
 				var last string
 				lastChange := time.Now()
+				cpuAtChange := procCPU(cmd.Process.Pid)
 			wait:
 				for {
 					select {
@@ -214,8 +228,8 @@ func supervise(c *Check, tier string, seed int64) int {
 					case <-time.After(2 * time.Second):
 						cur, _ := readJournal(jr)
 						if cur != last {
-							last, lastChange = cur, time.Now()
-						} else if time.Since(lastChange) > wd {
+							last, lastChange, cpuAtChange = cur, time.Now(), procCPU(cmd.Process.Pid)
+						} else if procCPU(cmd.Process.Pid)-cpuAtChange > wd || time.Since(lastChange) > 20*wd {
 							hung = true
 							cmd.Process.Kill() //nolint:errcheck
 							<-done
@@ -229,6 +243,13 @@ func supervise(c *Check, tier string, seed int64) int {
 					if json.Unmarshal(rb, &r) == nil && r.Done {
 						st.res = &r
 						return
+					}
+				}
+				if cb, err := os.ReadFile(out + ".ckpt"); err == nil {
+					var pr Result
+					if json.Unmarshal(cb, &pr) == nil && pr.Seq > st.resume {
+						st.partials = append(st.partials, &pr)
+						st.resume = pr.Seq
 					}
 				}
 				key, ok := readJournal(jr)
@@ -282,37 +303,14 @@ func supervise(c *Check, tier string, seed int64) int {
 			broken = append(broken, st.err)
 			continue
 		}
-		r := st.res
-		if r == nil {
+		if st.res == nil {
 			broken = append(broken, fmt.Sprintf("shard %d produced no result", i))
 			continue
 		}
-		merged.Evaluations += r.Evaluations
-		merged.Distinct += r.Distinct
-		merged.Nontrivial += r.Nontrivial
-		for k, v := range r.Counters {
-			merged.Counters[k] += v
+		for _, r := range append(append([]*Result(nil), st.partials...), st.res) {
+			mergeInto(merged, r)
+			broken = append(broken, r.Internal...)
 		}
-		for k, v := range r.Outcomes {
-			merged.Outcomes[k] += v
-		}
-		merged.Violations = append(merged.Violations, r.Violations...)
-		for _, s := range r.Samples {
-			if len(merged.Samples) < 6 {
-				merged.Samples = append(merged.Samples, s)
-			}
-		}
-		merged.Exhaustive = merged.Exhaustive && r.Exhaustive
-		for _, nn := range r.Notes {
-			dup := false
-			for _, x := range merged.Notes {
-				dup = dup || x == nn
-			}
-			if !dup {
-				merged.Notes = append(merged.Notes, nn)
-			}
-		}
-		broken = append(broken, r.Internal...)
 	}
 	if c.Vacuity != nil && len(broken) == 0 {
 		if msg := c.Vacuity(merged); msg != "" {
@@ -369,6 +367,54 @@ func supervise(c *Check, tier string, seed int64) int {
 		return 2
 	}
 	return 0
+}
+
+// procCPU returns the CPU time (user+system) a process has consumed so far.
+func procCPU(pid int) time.Duration {
+	b, err := os.ReadFile(fmt.Sprintf("/proc/%d/stat", pid))
+	if err != nil {
+		return 0
+	}
+	// fields after the parenthesised command name; utime and stime are fields 14 and 15 of the line
+	str := string(b)
+	if i := strings.LastIndex(str, ")"); i >= 0 {
+		f := strings.Fields(str[i+1:])
+		if len(f) > 13 {
+			ut, _ := strconv.ParseInt(f[11], 10, 64)
+			st, _ := strconv.ParseInt(f[12], 10, 64)
+			return time.Duration(ut+st) * 10 * time.Millisecond
+		}
+	}
+	return 0
+}
+
+// mergeInto adds one worker result (final or checkpoint) to the merged result.
+func mergeInto(merged, r *Result) {
+	merged.Evaluations += r.Evaluations
+	merged.Distinct += r.Distinct
+	merged.Nontrivial += r.Nontrivial
+	for k, v := range r.Counters {
+		merged.Counters[k] += v
+	}
+	for k, v := range r.Outcomes {
+		merged.Outcomes[k] += v
+	}
+	merged.Violations = append(merged.Violations, r.Violations...)
+	for _, s := range r.Samples {
+		if len(merged.Samples) < 6 {
+			merged.Samples = append(merged.Samples, s)
+		}
+	}
+	merged.Exhaustive = merged.Exhaustive && r.Exhaustive
+	for _, nn := range r.Notes {
+		dup := false
+		for _, x := range merged.Notes {
+			dup = dup || x == nn
+		}
+		if !dup {
+			merged.Notes = append(merged.Notes, nn)
+		}
+	}
 }
 
 func oneLine(v any) string {
